@@ -69,14 +69,28 @@ inductive Result (β : Type)
 /-- buildFailureResponse(500) -/
 def failureResp {β} (ops : BodyOps β) (code : Nat) : Resp β := ⟨code, [], -1, .bytes ops.empty⟩
 
-/-- The transport's view of the backend reply (trusted contract of net/http). -/
+/-- The transport un-gzips this reply transparently: it added `Accept-Encoding: gzip` itself (the outgoing
+request had none, no `Range`, not HEAD), the reply has a body and is labelled exactly `gzip`. -/
+def gunzipApplies {β} (method : String) (outHdr : Hdr) (b : BackendReply β) : Bool :=
+  (outHdr.get keyAE).isEmpty && (outHdr.get "Range").isEmpty && !(method == "HEAD") &&
+    b.cl != 0 && (b.hdr.get keyCE).head? == some "gzip"
+
+/-- The transport's view of the backend reply (trusted contract of net/http). An undecodable gzip body is
+handed on as it is — its reader then fails, see `transportFails`. -/
 def transportReply {β} (ops : BodyOps β) (method : String) (outHdr : Hdr) (b : BackendReply β) : Resp β :=
-  let isHead := method == "HEAD"
-  let addedGzip := (outHdr.get keyAE).isEmpty && (outHdr.get "Range").isEmpty && !isHead
-  if isHead then ⟨b.status, b.hdr, b.cl, .stream ops.empty⟩
-  else if addedGzip && b.cl != 0 && (b.hdr.get keyCE).head? == some "gzip" then
-    ⟨b.status, (b.hdr.del keyCE).del keyCL, -1, .stream ((ops.ungz b.body).getD b.body)⟩
+  if method == "HEAD" then ⟨b.status, b.hdr, b.cl, .stream ops.empty⟩
+  else if gunzipApplies method outHdr b then
+    match ops.ungz b.body with
+    | some d => ⟨b.status, (b.hdr.del keyCE).del keyCL, -1, .stream d⟩
+    | none => ⟨b.status, (b.hdr.del keyCE).del keyCL, -1, .stream b.body⟩
   else ⟨b.status, b.hdr, b.cl, .stream b.body⟩
+
+/-- The body reader the transport hands over **fails** (`io.ErrUnexpectedEOF`) instead of ending: the backend
+sent fewer bytes than it declared, or the transparent gunzip meets a truncated / undecodable gzip stream. -/
+def transportFails {β} (ops : BodyOps β) (method : String) (outHdr : Hdr) (b : BackendReply β) : Bool :=
+  !(method == "HEAD") &&
+    ((decide (0 ≤ b.cl) && decide (ops.len b.body < b.cl.toNat)) ||
+     (gunzipApplies method outHdr b && (ops.ungz b.body).isNone))
 
 /-- Outcome of everything before the pool: mux limit check, RequestAdaptor, prepareRequest. -/
 inductive Prepared (β : Type)
@@ -109,14 +123,10 @@ def proxyResp {β} (ops : BodyOps β) (cfg : Cfg) (method : String) (outHdr : Hd
   let r1 := match cfg.compression with
     | none => r0
     | some ml => proxyCompress ops ml outHdr r0
-  -- a backend that sends fewer bytes than it declared: the transport's body fails with ErrUnexpectedEOF.
-  -- Uncompressed, FetchPayload sees the declared length (short read); behind the gzip compressor the
-  -- length is hidden and the compressor passes the error on (`Payload.fetchFailing`).
-  let short := decide (0 ≤ r0.cl) && decide (ops.len r0.payload.content < r0.cl.toNat) && !(method == "HEAD")
-  let did := match cfg.compression with
-    | none => false
-    | some ml => compressDid ml outHdr r0
-  if short && did then
+  -- a failing body reader (`transportFails`): when FetchPayload still sees the declared length (no compression,
+  -- no gunzip) its usual path reports the short read; when the length is hidden (`ContentLength = -1` behind the
+  -- gzip compressor or after the transparent gunzip) the wrapper passes the error on (`Payload.fetchFailing`).
+  if transportFails ops method outHdr reply && decide (r1.cl < (0 : Int)) then
     match Payload.fetchFailing cfg.dflt (Payload.effLimit cfg.poolMax cfg.proxyMax) (ops.len r1.payload.content) with
     | .stream => some { r1 with payload := .stream r1.payload.content }
     | _ => none
@@ -124,6 +134,24 @@ def proxyResp {β} (ops : BodyOps β) (cfg : Cfg) (method : String) (outHdr : Hd
   fetchPayload ops cfg.dflt (Payload.effLimit cfg.poolMax cfg.proxyMax) (method == "HEAD") r1
 
 def downstream (cfg : Cfg) : List AdSpec := match cfg.respAd with | none => [] | some a => [a]
+
+/-- Stream mode and a backend that sends fewer bytes than it declared: nothing was buffered, so the reader the
+mux copies the response body from (the transport's body, possibly behind the gzip compressor) fails with
+`io.ErrUnexpectedEOF` before its end. -/
+def bodyReaderFails {β} (ops : BodyOps β) (cfg : Cfg) (method : String) (outHdr : Hdr) (reply : BackendReply β) : Bool :=
+  decide (Payload.normLimit cfg.dflt (Payload.effLimit cfg.poolMax cfg.proxyMax) < 0) &&
+    transportFails ops method outHdr reply
+
+/-- The mux write-out (`io.Copy(stdw, resp.GetPayload())`, then `panic(http.ErrAbortHandler)` when the copy
+failed — fixes/C07-stream-abort.patch): the client's transfer is **aborted** (connection closed before the
+message is complete) exactly when the payload it copies is still that failing reader, i.e. no downstream
+filter replaced the body. Otherwise the client gets the complete response `run` computes. -/
+def clientAborted {β} (ops : BodyOps β) (canon : String → String) (cfg : Cfg) (q : ClientReq β)
+    (reply : BackendReply β) : Bool :=
+  match prepare ops canon cfg q with
+  | .ready _ seen =>
+    bodyReaderFails ops cfg q.method seen.hdr reply && (downstream cfg).all (fun a => a.body == "")
+  | _ => false
 
 def run {β} (ops : BodyOps β) (canon : String → String) (cfg : Cfg) (q : ClientReq β)
     (reply : BackendReply β) : Result β :=
